@@ -546,9 +546,12 @@ SCALE_SIZES = {'bracketed-lines': (25, 50), 'long-identifier': (3000, 6000), 'do
                'open-index': (1000, 2000), 'open-index-sum': (1400, 2800), 'keyword-open-index': (2500, 5000)}
 SCALE_MIN_T = 0.1       # first look: seconds of CPU below which a growth exponent is noise
 SCALE_MAX_EXP = 1.6     # first look: linear is 1, quadratic 2 — only SUSPECTS a family, never flags it
-# confirmation of a suspected family: three FRESH processes, sizes n, 2n, 4n; flagged only if EVERY process measures an exponent
-# (n -> 4n) of at least SCALE_CONFIRM_EXP with t(4n) >= SCALE_CONFIRM_T.  On a machine too fast to reach the floor nothing is flagged.
+# confirmation of a suspected family: three FRESH processes, each timing sizes n, 2n, 4n (min of 2 after a warm-up).  Flagged only if
+# (i) the exponent n -> 4n computed from the per-size MINIMA over the three processes (the robust estimate of the true cost) is at least
+# SCALE_CONFIRM_EXP, (ii) EVERY single process measures at least SCALE_CONFIRM_EACH, and (iii) every t(4n) >= SCALE_CONFIRM_T.
+# Never on a single measurement; on a machine too fast to reach the floor nothing is flagged (a kept scaling finding is then not hit).
 SCALE_CONFIRM_EXP = 1.85
+SCALE_CONFIRM_EACH = 1.5
 SCALE_CONFIRM_T = 0.5
 SCALE_CONFIRM_BASE = {'bracketed-lines': 15, 'dotted-name': 2000, 'open-index': 1000, 'open-index-sum': 1200, 'keyword-open-index': 2500}
 
@@ -611,8 +614,7 @@ def _confirm_scale(family, base):
             pts = json.loads(p.stdout.strip().splitlines()[-1])
         except Exception:       # noqa: BLE001
             return None
-        (l1, t1), _mid, (l4, t4) = pts
-        res.append((math.log(max(t4, 1e-6) / max(t1, 1e-6)) / math.log(l4 / l1), t4))
+        res.append(pts)
     return res
 
 
@@ -628,11 +630,17 @@ def impl_scale(case):
     if suspected:
         conf = _confirm_scale(case['family'], SCALE_CONFIRM_BASE.get(case['family'], case['n1']))
         if conf is not None:
-            o['confirm'] = [[int(round(e * 100)), int(t * 1000)] for e, t in conf]
-            o['superlinear'] = all(e >= SCALE_CONFIRM_EXP and t >= SCALE_CONFIRM_T for e, t in conf)
+            def ex(ta, tb, la, lb):
+                return math.log(max(tb, 1e-6) / max(ta, 1e-6)) / math.log(lb / la)
+            each = [ex(p[0][1], p[2][1], p[0][0], p[2][0]) for p in conf]
+            t1m, t4m = min(p[0][1] for p in conf), min(p[2][1] for p in conf)
+            robust = ex(t1m, t4m, conf[0][0][0], conf[0][2][0])
+            o['confirm'] = {'each_x100': [int(round(e * 100)) for e in each], 'minima_x100': int(round(robust * 100)), 't4_ms': [int(p[2][1] * 1000) for p in conf]}
+            o['superlinear'] = bool(robust >= SCALE_CONFIRM_EXP and all(e >= SCALE_CONFIRM_EACH for e in each)
+                                    and all(p[2][1] >= SCALE_CONFIRM_T for p in conf))
             if o['superlinear']:
-                o['exponent_x10'] = int(round(min(e for e, _ in conf) * 10))
-                o['t2_ms'] = int(min(t for _, t in conf) * 1000)
+                o['exponent_x10'] = int(round(robust * 10))
+                o['t2_ms'] = int(t4m * 1000)
     return o
 
 
@@ -959,7 +967,7 @@ def oracle(case, obs):
     if case['k'] == 'scale':
         if obs.get('superlinear'):
             return [{'sig': 'C13|scaling|' + case['family'],
-                     'what': 'parse_model terminates, but its CPU time grows at least like size^%.1f on the family %r (confirmed by three fresh processes at sizes n, 2n, 4n: [exponent x100, ms at 4n] = %s)'
+                     'what': 'parse_model terminates, but its CPU time grows at least like size^%.1f on the family %r (confirmed by three fresh processes at sizes n, 2n, 4n: %s)'
                              % ((obs.get('exponent_x10') or 0) / 10.0, case['family'], obs.get('confirm'))}]
         return []
     items = [(case['s'], obs)] if case['k'] == 's' else [(s, o) for s, o in obs.get('anomalies', [])]
